@@ -487,6 +487,156 @@ def p1Stream (cs : Comps Nat) (k : Nat) : List (Rec Nat) :=
 
 end Pass3
 
+/-! ### Pass 1 with the component streams kept apart (`NGramHandler::active_`)
+
+Every order has one input stream per component that has that order.  `HandleSuffix` looks at the
+*heads* of the active streams only: among the heads that end in the current suffix it takes the
+smallest first word, builds the n-gram, lets every stream whose head *is* that n-gram contribute
+`λ[model]·prob` at `probs[model]` / `from[model]` (the other components keep the fallback), advances
+those streams (erasing exhausted ones), recurses with the n-gram as suffix and continues. -/
+section Kway
+
+/-- one element of `active_`: the model number and what is left of that component's stream -/
+structure Act where
+  model  : Nat
+  stream : List (List Nat × Rat)
+deriving DecidableEq
+
+/-- first words of the heads that end in the suffix `g` -/
+def candFirst (acts : List Act) (g : List Nat) : List Nat :=
+  acts.filterMap (fun a =>
+    match a.stream with
+    | (y :: t, _) :: _ => if t = g then some y else none
+    | _ => none)
+
+/-- the `minimum` loop of `HandleSuffix` -/
+def minFirst (acts : List Act) (g : List Nat) : Option Nat :=
+  match candFirst acts g with
+  | [] => none
+  | y :: ys => some (ys.foldl min y)
+
+/-- the streams whose head is `gram`: `(model, prob)` of each, and the active list after advancing
+them (exhausted streams are erased) -/
+def advance (acts : List Act) (gram : List Nat) : List (Nat × Rat) × List Act :=
+  (acts.filterMap (fun a =>
+      match a.stream with
+      | (g, p) :: _ => if g = gram then some (a.model, p) else none
+      | [] => none),
+   acts.filterMap (fun a =>
+      match a.stream with
+      | (g, _) :: rest => if g = gram then (if rest = [] then none else some ⟨a.model, rest⟩) else some a
+      | [] => none))
+
+/-- `probs[model] = lambdas[model] * prob; from[model] = order - 1` for the contributing streams -/
+def applyContrib (lambdas : List Rat) (fb : Fallback) (contrib : List (Nat × Rat)) (lvl : Nat) : Fallback :=
+  fb.zipIdx.map (fun fi =>
+    match contrib.lookup fi.2 with
+    | some p => (lambdas.getD fi.2 0 * p, lvl)
+    | none => fi.1)
+
+/-- `HandleSuffix` on the active lists of the orders `|g|+1, |g|+2, …` -/
+def handleK (lambdas : List Rat) :
+    Nat → List (List Act) → List Nat → Fallback → List (List Act) × List (P1Rec Nat)
+  | 0, ss, _, _ => (ss, [])
+  | _ + 1, [], _, _ => ([], [])
+  | n + 1, a :: rest, g, fb =>
+    match minFirst a g with
+    | none => (a :: rest, [])
+    | some y =>
+      let adv := advance a (y :: g)
+      let cur := applyContrib lambdas fb adv.1 g.length
+      let r1 := handleK lambdas n rest (y :: g) cur
+      let r2 := handleK lambdas n (adv.2 :: r1.1) g fb
+      (r2.1, { gram := y :: g, prob := (cur.map (·.1)).sum, lower := (fb.map (·.1)).sum,
+               from_ := cur.map (·.2) } :: r1.2 ++ r2.2)
+
+/-- what is left of component `m`'s stream when the merged stream is at `M` -/
+def strOf (m : LM Nat) (M : List (Rec Nat)) : List (List Nat × Rat) :=
+  M.filterMap (fun r => (m.findGram r.1).map (fun e => (r.1, e.prob)))
+
+/-- `active_` when the merged stream of that order is at `M`: model number = position in `cs` -/
+def actsOf (cs : Comps Nat) (M : List (Rec Nat)) : List Act :=
+  cs.zipIdx.filterMap (fun pi => if strOf pi.1.2 M = [] then none else some ⟨pi.2, strOf pi.1.2 M⟩)
+
+/-- seeded change C13-3: a stream is tagged with its position among the components that *have*
+this order (`inputs_.size() - 1`) instead of with its model number -/
+def actsOfMut (cs : Comps Nat) (k : Nat) (M : List (Rec Nat)) : List Act :=
+  (cs.filter (fun p => decide (k ≤ p.2.order))).zipIdx.filterMap
+    (fun pi => if strOf pi.1.2 M = [] then none else some ⟨pi.2, strOf pi.1.2 M⟩)
+
+/-- component `m`'s own input stream of order `k`: its n-grams of that order in `SuffixOrder`, with
+their probabilities -/
+def compStream (m : LM Nat) (k : Nat) : List (List Nat × Rat) :=
+  ((dedup ((m.entries.map (·.gram)).filter (fun g => g.length == k))).mergeSort
+      (fun a b => lexLe a.reverse b.reverse)).filterMap
+    (fun g => (m.findGram g).map (fun e => (g, e.prob)))
+
+/-- `active_` of order `k` as the `NGramHandler` constructor builds it from the component files:
+model number = position on the command line, only non-empty streams -/
+def initActs (cs : Comps Nat) (k : Nat) : List Act :=
+  cs.zipIdx.filterMap (fun pi => if compStream pi.1.2 k = [] then none else some ⟨pi.2, compStream pi.1.2 k⟩)
+
+end Kway
+
+/-! ### `BackoffManager`'s per-model bookkeeping (`BackoffMatrix`, `Enter` / `Exit` / `Get`)
+
+Every back-off input stream (component `m`, order `k` below the component's top order) owns the
+cell `matrix_.Backoff(m, k - 1)`.  `Enter(c)` copies the back-off of the streams whose head is `c`
+into their cells, `Exit` zeroes them again (`Next()`), `Get(m, level)` reads a cell.  While
+`SameContext(c)` runs, the suffixes of `c` are entered, one per level. -/
+section BoMatrix
+variable {W : Type} [DecidableEq W]
+
+/-- `BackoffMatrix`: `backing_[model * max_order_ + order_minus_1]` -/
+structure BoMat where
+  maxOrder : Nat
+  backing  : List Rat
+deriving DecidableEq
+
+def BoMat.zero (models maxOrder : Nat) : BoMat := ⟨maxOrder, List.replicate (models * maxOrder) 0⟩
+
+def BoMat.get (M : BoMat) (m lvl : Nat) : Rat := M.backing.getD (m * M.maxOrder + lvl) 0
+
+def BoMat.set (M : BoMat) (m lvl : Nat) (v : Rat) : BoMat :=
+  { M with backing := M.backing.set (m * M.maxOrder + lvl) v }
+
+/-- `Enter(c)`: the streams whose head is `c` (component has `c` below its top order) copy their
+back-off into their cell -/
+def enterMat (cs : Comps W) (M : BoMat) (c : List W) : BoMat :=
+  cs.zipIdx.foldl (fun M pi =>
+    if c.length < pi.1.2.order then
+      match pi.1.2.findGram c with
+      | some e => M.set pi.2 (c.length - 1) e.bo
+      | none => M
+    else M) M
+
+/-- `Exit(|c| - 1)`: the entered streams advance, their cells are zeroed -/
+def exitMat (cs : Comps W) (M : BoMat) (c : List W) : BoMat :=
+  cs.zipIdx.foldl (fun M pi =>
+    if c.length < pi.1.2.order then
+      match pi.1.2.findGram c with
+      | some _ => M.set pi.2 (c.length - 1) 0
+      | none => M
+    else M) M
+
+/-- the matrix while `SameContext(c)` runs: the suffixes of `c` entered, shortest first -/
+def pathMat (cs : Comps W) (K : Nat) : List W → BoMat
+  | [] => BoMat.zero cs.length K
+  | y :: c => enterMat cs (pathMat cs K c) (y :: c)
+
+/-- the charging loop of `SameContext` for component `m` found at level `from_`, context length `k`
+(`order_ = k + 1`): `(added to LowerProb, added to Prob)` before the multiplication by λ -/
+def chargeLoop (M : BoMat) (m from_ k : Nat) : Rat × Rat :=
+  let lower := ((List.range' from_ (k - 1 - from_)).map (fun bt => M.get m bt)).sum
+  (lower, if from_ < k then lower + M.get m (k - 1) else lower)
+
+/-- seeded change C13-5: `Get(m, found)` instead of `Get(m, backed_to)` inside the loop -/
+def chargeLoopMut (M : BoMat) (m from_ k : Nat) : Rat × Rat :=
+  let lower := ((List.range' from_ (k - 1 - from_)).map (fun _ => M.get m from_)).sum
+  (lower, if from_ < k then lower + M.get m (k - 1) else lower)
+
+end BoMatrix
+
 /-! ## Union vocabulary and renumbering (`MergeVocab`, `UniversalVocab`, `Renumber`) -/
 section Vocab
 
@@ -581,6 +731,43 @@ def decode (bounds : List Nat) (m : Nat) : List Nat :=
   decM (entries bounds) (m % 2^(8 * byteLength bounds))
 
 end BSE
+
+/-! ### `MergeVocab` (merge_vocab.cc) and the per-model id maps of `UniversalVocab`
+
+Each component's vocabulary file lists its words (after `<unk>`) in increasing order of their
+64-bit hash; a min-heap over the files pops the entries in non-decreasing hash order (ties between
+files in heap order, i.e. arbitrary); an entry whose hash differs from the previous one opens a new
+universal id; every popped entry `(model, local index)` is mapped to the current universal id. -/
+section MergeVocabIds
+
+/-- one pop of the heap: hash, model, local index (`CurrentIndex()`) -/
+structure VPop where
+  hash  : Nat
+  model : Nat
+  loc   : Nat
+deriving DecidableEq
+
+/-- one call of `InsertUniversalIdx(model, loc, univ)`, with the hash that caused it -/
+structure VIns where
+  hash  : Nat
+  model : Nat
+  loc   : Nat
+  univ  : Nat
+deriving DecidableEq
+
+/-- the `while (!heap.empty())` loop, given the pops in heap order; `prev` = `prev_hash_value`,
+`gi` = `global_index` -/
+def mergeVocabLoop : List VPop → Nat → Nat → List VIns
+  | [], _, _ => []
+  | p :: rest, prev, gi =>
+    let gi' := if p.hash ≠ prev then gi + 1 else gi
+    ⟨p.hash, p.model, p.loc, gi'⟩ :: mergeVocabLoop rest p.hash gi'
+
+/-- all insertions of `MergeVocab`: `<unk>` of every model ↦ 0, then the loop from `(0, 0)` -/
+def mergeVocabIns (nModels : Nat) (pops : List VPop) : List VIns :=
+  (List.range nModels).map (fun i => ⟨0, i, 0, 0⟩) ++ mergeVocabLoop pops 0 0
+
+end MergeVocabIds
 
 /-- float32 bit pattern → exact rational (finite values; inf/nan ↦ 0) -/
 def f32ToRat (b : Nat) : Rat :=
